@@ -109,3 +109,20 @@ Print Assumptions C17_no_overlap.
 Print Assumptions C17_enter_exit_alternate.
 Print Assumptions C17_periodic_continues.
 Print Assumptions C17_periodic_progress.
+
+(* ---- the correspondence check's (partial-order reduced) history matcher is certified for this model
+        (Conc/GroupMatcher.v): sound, and complete whenever its closures converged ---- *)
+From Juniper Require Conc.GoLTS Conc.Group Conc.GroupMatcher.
+
+Theorem C17_matcher_sound : forall c evs,
+    Group.accepts_history c evs = true ->
+    exists ls s, GoLTS.run Group.qstep (Group.init c) ls = Some s /\ GroupMatcher.group_trace ls = evs.
+Proof. exact GroupMatcher.group_accepts_sound. Qed.
+
+Theorem C17_matcher_rejections_genuine : forall c evs,
+    GroupMatcher.group_converged c evs = true -> Group.accepts_history c evs = false ->
+    forall ls s, GoLTS.run Group.qstep (Group.init c) ls = Some s -> GroupMatcher.group_trace ls <> evs.
+Proof. exact GroupMatcher.group_reject_genuine. Qed.
+
+Print Assumptions C17_matcher_sound.
+Print Assumptions C17_matcher_rejections_genuine.
